@@ -4,6 +4,8 @@ The obvious specification of the `KvDatabase` API, and the glue that runs the by
 
   committed state   wide : column → value type (discriminant) → key → value
                     sets : column → key → element → member?
+                    (two independent maps: the wide column and the key-of-set column of ONE type id are
+                    different columns of the specification)
   open batches / serialization buffers hold LOGICAL operations; `commit` applies a batch as a whole;
   reads look at the committed state only; `reopen` forgets everything that is not committed.
 -/
@@ -13,10 +15,13 @@ import QbiceVerif.Lemmas.KvKey
 namespace QbiceVerif.Kv
 
 /-- How logical keys / discriminants / elements of each column become bytes (the serializer), and the
-`discriminant_encoding()` of each wide column. -/
+`discriminant_encoding()` of each wide column.  A stable type id may be used BOTH as a wide column and
+as a key-of-set column (a type implementing both traits): `encK` is the encoder of its
+`WideColumn::Key`, `encSK` the encoder of its `KeyOfSetColumn::Key` (two independent associated types). -/
 structure Enc (κ δ ε : Type) where
   plc : Nat → Placement
   encK : Nat → κ → Bytes
+  encSK : Nat → κ → Bytes
   encD : Nat → δ → Bytes
   encE : Nat → ε → Bytes
 
@@ -117,8 +122,8 @@ variable {κ δ ε : Type}
 def opParts (be : Backend) (E : Enc κ δ ε) : LOp κ δ ε → Nat × Kind × Bytes × Option Bytes
   | .put c d k v => (c, .wide, wideKey be.padKey (E.plc c) (E.encD c d) (E.encK c k), some v)
   | .del c d k => (c, .wide, wideKey be.padKey (E.plc c) (E.encD c d) (E.encK c k), none)
-  | .ins c k e => (c, .set, setKey (E.encK c k) (E.encE c e), some [])
-  | .rem c k e => (c, .set, setKey (E.encK c k) (E.encE c e), none)
+  | .ins c k e => (c, .set, setKey (E.encSK c k) (E.encE c e), some [])
+  | .rem c k e => (c, .set, setKey (E.encSK c k) (E.encE c e), none)
 
 def mstep (be : Backend) (E : Enc κ δ ε) (db : Db) : Cmd κ δ ε → MObs × Db
   | .bnew h => (.res .ok, batchNew db h)
@@ -135,7 +140,7 @@ def mstep (be : Backend) (E : Enc κ δ ε) (db : Db) : Cmd κ δ ε → MObs ×
   | .commit h => let r := commit db h; (.res r.1, r.2)
   | .drop h => let r := dropBatch db h; (.res r.1, r.2)
   | .get c d k => let r := get be db c (E.plc c) (E.encD c d) (E.encK c k); (.val r.1, r.2)
-  | .scan c k => let r := scan be db c (E.encK c k); (.members r.1, r.2)
+  | .scan c k => let r := scan be db c (E.encSK c k); (.members r.1, r.2)
   | .reopen => (.res .ok, reopen db)
 
 /-- a model observation says the same as a specification observation -/
